@@ -10,6 +10,7 @@ package server
 import (
 	"bytes"
 	"fmt"
+	"os"
 
 	"github.com/snower/slock/protocol"
 )
@@ -199,8 +200,12 @@ type vfValueOracle struct {
 type vfAckPendingVal struct {
 	prev      vfVal
 	prevKnown bool
-	opsSince  int // value operations executed on the key since the admission
+	prevSig   string // signature of a documented divergence the value carried when the request was admitted
+	opsSince  int    // value operations executed on the key since the admission
 }
+
+// VERIF_VALUE_DEBUG=1 (debugging aid for replays): print every value comparison
+var vfValueDebug = os.Getenv("VERIF_VALUE_DEBUG") != ""
 
 func vfAttachValueOracle(sh *vfShadow) *vfValueOracle {
 	o := &vfValueOracle{sh: sh, states: map[vfKeyId]*vfValState{}, pending: map[uint64]*vfAckPendingVal{}}
@@ -243,6 +248,9 @@ func (o *vfValueOracle) onValue(kid vfKeyId, k *vfKeyState, r *vfReq, ev *vfEven
 		return // terminal error reply of a rolled-back admission: handled by onAckRollback
 	}
 	obs, err := vfParseValue(ev.Data)
+	if vfValueDebug {
+		fmt.Printf("VALUE %s: observed %s model %s known=%v applied=%v op=%s\n", ev.String(), obs.String(), st.Val.String(), st.Known, applied, vfJSON(r.Op.Data))
+	}
 	if err != nil {
 		s.report("C15", "malformed-value", "", "reply carries a malformed value frame (%v): %x; %s", err, ev.Data, ev.String())
 		st.Known = false
@@ -297,7 +305,6 @@ func (o *vfValueOracle) onValue(kid vfKeyId, k *vfKeyState, r *vfReq, ev *vfEven
 	}
 }
 
-
 func (o *vfValueOracle) state(kid vfKeyId) *vfValState {
 	st := o.states[kid]
 	if st == nil {
@@ -314,7 +321,10 @@ func (o *vfValueOracle) onAckAdmit(kid vfKeyId, r *vfReq) {
 		return
 	}
 	st := o.state(kid)
-	o.pending[r.ID] = &vfAckPendingVal{prev: st.Val, prevKnown: st.Known}
+	if vfValueDebug {
+		fmt.Printf("VALUE ack-admit req=%d model %s known=%v op=%s\n", r.ID, st.Val.String(), st.Known, vfJSON(r.Op.Data))
+	}
+	o.pending[r.ID] = &vfAckPendingVal{prev: st.Val, prevKnown: st.Known, prevSig: st.LastSig}
 	if st.Known {
 		st.Val = vfApplyValueOp(st.Val, r.Op.Data)
 	}
@@ -335,6 +345,9 @@ func (o *vfValueOracle) onAckRollback(kid vfKeyId, r *vfReq) {
 	}
 	delete(o.pending, r.ID)
 	st := o.state(kid)
+	if vfValueDebug {
+		fmt.Printf("VALUE ack-rollback req=%d model %s known=%v prev %s prevKnown=%v opsSince=%d\n", r.ID, st.Val.String(), st.Known, p.prev.String(), p.prevKnown, p.opsSince)
+	}
 	if p.prevKnown && p.opsSince == 0 {
 		st.Val, st.Known = p.prev, true
 		st.LastOp, st.LastSig = "rollback of "+vfJSON(r.Op.Data), ""
@@ -342,6 +355,12 @@ func (o *vfValueOracle) onAckRollback(kid vfKeyId, r *vfReq) {
 			st.LastSig = "rollback-of-pipeline"
 		} else if p.prev.Absent {
 			st.LastSig = "rollback-onto-a-key-without-value"
+		}
+		if p.prevSig != "" {
+			// the value the admission started from had not been confirmed by a reply since an
+			// operation with a documented divergence (no reply is sent at admission): a mismatch
+			// after the rollback is that divergence coming to light
+			st.LastSig = p.prevSig
 		}
 		o.sh.stats["value_rollbacks_exact"]++
 	} else {
